@@ -17,9 +17,11 @@ def run(ctx):
     ctx.prepare()
     ctx.log(f"prepared at {time.time() - ctx.t0:.1f}s")
     ctx.obligations("NGF.Props.C01")
+    ctx.obligations("NGF.Props.C01Footprint")
     ctx.log(f"obligations at {time.time() - ctx.t0:.1f}s")
     if ctx.tier == "thorough":
         ctx.leanchecker("NGF.Props.C01")
+        ctx.leanchecker("NGF.Props.C01Footprint")
 
     watch = ctx.facts.get("StoreFacts.watchSpec")
     if not watch:
@@ -43,6 +45,8 @@ def run(ctx):
         ctx.broken("harness does not build against the current tree", detail="\n".join(ctx.build_errors))
 
     model_in, model_obs, judge_in, judge_meta = [], [], [], []
+    foot_in, foot_obs = [], []
+    watch_in, watch_obs = [], []
     replays, hstats, tags = {}, [], collections.Counter()
     inconclusive, panics = collections.Counter(), collections.Counter()
     for src, lines in runs:
@@ -61,6 +65,14 @@ def run(ctx):
                 m, _, o = body.partition("\tO ")
                 model_in.append(m)
                 model_obs.append(o)
+            elif typ == "W":
+                m, _, o = body.partition("\t")
+                watch_in.append(m)
+                watch_obs.append("1" if o == "true" else "0")
+            elif typ == "G":
+                m, _, o = body.partition("\tO ")
+                foot_in.append(m)
+                foot_obs.append(o)
             elif typ == "J":
                 cp, sig, inp = body.split(" ", 2)
                 judge_in.append(inp)
@@ -105,6 +117,36 @@ def run(ctx):
                 ctx.broken("store model and changeTrackingUpdater disagree on a history "
                            f"(first difference: {_first_diff(o, out)})",
                            replay={"batches": m[:6000], "impl": o[:3000], "model": out[:3000]})
+    # footprint correspondence: the referenced sets recomputed by the Lean footprint model from the graph core
+    # must be the sets of the real BuildGraph
+    fouts = ctx.driver("footprint", foot_in)
+    fdiffs, fstats = 0, collections.Counter()
+    for m, o, out in zip(foot_in, foot_obs, fouts):
+        if out == "bad-op":
+            fdiffs += 1
+            ctx.broken("footprint model could not decode a graph core", replay={"core": m[:3000]})
+            continue
+        real, mod = _sets(o), _sets(out)
+        bad = [k for k in ("svcs", "nss", "cms") if real[k] != mod[k]]
+        if not real["secs"] <= mod["seccand"] or not real["resolved"] <= real["secs"]:
+            bad.append("secs")
+        for k in ("svcs", "nss", "cms", "secs"):
+            fstats[k + "_nonempty"] += bool(real[k])
+        fstats["scenarios_with_service_read_but_not_referenced"] += bool(mod["unref"])
+        if bad:
+            fdiffs += 1
+            if fdiffs <= 3:
+                ctx.broken(f"footprint model and real BuildGraph disagree on the referenced sets {bad}",
+                           replay={"core": m[:3000], "real": o[:1500], "model": out[:1500]})
+    # ServicePortsChangedPredicate.Update as modelled (Footprint.watchSvc) vs the real predicate
+    wouts = ctx.driver("watchsvc", watch_in)
+    wdiffs = 0
+    for m, o, out in zip(watch_in, watch_obs, wouts):
+        if out != o:
+            wdiffs += 1
+            if wdiffs <= 2:
+                ctx.broken(f"Footprint.watchSvc and the real ServicePortsChangedPredicate disagree (impl {o} / model {out})",
+                           replay={"update": m})
     if inconclusive:
         ctx.broken(f"harness could not run some histories: {dict(inconclusive)}")
 
@@ -125,6 +167,12 @@ def run(ctx):
         "samples": model_in[:2] + [m[:300] for m in judge_in[-2:]],
         "traces_validated_against_impl": len(model_in) - diffs,
         "correspondence_diffs": diffs,
+        "footprint_graphs_compared": len(foot_in),
+        "footprint_diffs": fdiffs,
+        "footprint_stats": dict(fstats),
+        "service_watch_updates_compared": len(watch_in),
+        "service_watch_filtered": watch_obs.count("0"),
+        "service_watch_diffs": wdiffs,
         "histories": len(hstats),
         "corpus_histories": len(corpus),
         "totals": dict(disp),
@@ -140,12 +188,22 @@ def run(ctx):
         "the informer cache is up to date when a batch is handled (EndpointSlices are read from it at build time)",
         "equality of outputs is modulo directive order inside NGINX blocks, matches.json key numbering, the "
         "config-version file, condition message texts and transition times (DESIGN §8)",
-        "soundness of each concrete relevance/watch predicate w.r.t. the real BuildGraph is decided by the judge on "
-        "generated histories, not proved",
+        "BuildGraph/BuildConfiguration read Services, EndpointSlices, Namespaces, Secrets and ConfigMaps only as the "
+        "footprint model says (NGF.Model.Footprint, named Go functions); the referenced SETS of the model are checked "
+        "against the real graph on every run, the reading discipline itself and the kinds NginxProxy / NGF policies "
+        "are decided by the judge on generated histories, not proved",
     ], trusted=[
         "harness/c01: cluster simulator (controller-runtime fake client), recording file manager / runtime manager / "
         "status updater, order-normalisation of files and statuses",
     ])
+
+
+def _sets(s):
+    out = {}
+    for f in s.split(" "):
+        k, _, v = f.partition("=")
+        out[k] = set() if v in ("-", "") else set(v.split(","))
+    return out
 
 
 def _first_diff(a, b):
